@@ -38,7 +38,7 @@ def tree_strategy(draw, tier, min_n=2):
     max_n = 18 if tier == "quick" else 60
     soma = draw(st.integers(0, 2)) != 0
     t = draw(gen_tree.tree_case(min_n=min_n, max_n=max_n, regimes=["lattice"], distinct_points=True,
-                                soma_root=soma, permute=False))
+                                soma_root=soma, permute=None))
     for c in "xyz":  # keep within +-32 so spacings are commensurate with branch lengths
         t[c] = [((v * 8) % 512 - 256) / 8.0 for v in t[c]]
     n = len(t["parents"])
@@ -65,6 +65,21 @@ def tree_strategy(draw, tier, min_n=2):
             for c in "xyz":
                 t[c][i] = t[c][b[0]]
         t["zero_branch"] = list(b)
+    # two tips hanging from the same node end at the same place with the same radius and type (a doubled tracing):
+    # which of the two resampled branches gets which of the two identical end nodes cannot matter
+    if draw(st.integers(0, 5)) == 0 and "zero_branch" not in t:
+        brs = models.branches(t["parents"])
+        by_start = {}
+        for b in brs:
+            if not ch[b[-1]] and len(b) >= 2:
+                by_start.setdefault(b[0], []).append(b)
+        multi = [v for k, v in sorted(by_start.items()) if len(v) >= 2]
+        if multi:
+            v = multi[draw(st.integers(0, len(multi) - 1))]
+            a, b = v[0][-1], v[1][-1]
+            for c in ("x", "y", "z", "r", "type"):
+                t[c][b] = t[c][a]
+            t["twin_tips"] = [a, b]
     return t
 
 
@@ -73,7 +88,8 @@ def resample_strategy(draw, tier):
     t = draw(tree_strategy(tier))
     f = math.exp(draw(st.floats(min_value=math.log(0.05), max_value=math.log(20.0))))
     special = draw(st.integers(0, 9))
-    return {"tree": t, "f": f, "special": special}
+    return {"tree": t, "f": f, "special": special,
+            "reuse": draw(st.sampled_from(["no", "no", "same-tree-again", "another-tree-first"]))}
 
 
 def _polyline(P):
@@ -134,41 +150,70 @@ def _check_resampled(ctx, t, y, d, label):
         ob, yb = refb.get(o, []), ybs.get(q, [])
         ctx.check(len(ob) == len(yb), f"{label}/critical-nodes-keep-their-connectivity",
                   lambda: f"original node {o} starts {len(ob)} branches, its image {q} starts {len(yb)}; parents {parents} -> {yp}")
-        used = set()
-        for B in ob:
+        # which resampled branch is the image of which original one?  The end nodes decide, except for twin tips
+        # (identical end nodes): there every assignment under which all clauses hold is as good as any other, so the
+        # clauses are evaluated per (branch, candidate) pair and a perfect matching is searched for.
+        def judge(B, Y):
+            """None if the resampled branch Y is a correct image of the original branch B, else (clause, message)."""
             e = B[-1]
-            cand = [k for k, Y in enumerate(yb) if k not in used and same_node(Y[-1], e)]
-            ctx.check(bool(cand), f"{label}/critical-nodes-kept",
-                      lambda: f"branch {B}: no resampled branch from node {q} ends at the original end point "
-                              f"{x32[e].tolist()} r={r32[e]} type={t['type'][e]}; ends found: "
-                              f"{[(yx[Y[-1]].tolist(), float(yr[Y[-1]])) for Y in yb]}")
-            k = cand[0]
-            used.add(k)
-            Y = yb[k]
+            if not same_node(Y[-1], e):
+                return (f"{label}/critical-nodes-kept",
+                        f"branch {B}: no resampled branch from node {q} ends at the original end point {x32[e].tolist()} "
+                        f"r={r32[e]} type={t['type'][e]}; ends found: {[(yx[Z[-1]].tolist(), float(yr[Z[-1]])) for Z in yb]}")
             Pb = P[list(B)]
             seg, cum = _polyline(Pb)
             L = float(cum[-1])
             m = len(Y) - 1
             want = max(int(math.ceil(L / d)), 1) if L > 0 else 1
             near = L > 0 and abs(L / d - round(L / d)) < 1e-6 * max(1.0, L / d)
-            if near:
-                ctx.ambiguous("L/d-within-1e-6-of-an-integer")
-            ctx.check(m == want or (near and abs(m - want) <= 1), f"{label}/step-count",
-                      lambda: f"branch {B}: length {L}, spacing {d}: {m} steps, expected {want}")
-            ctx.check(L / m <= d * (1 + 1e-6) or L == 0, f"{label}/steps-no-longer-than-spacing", f"{L / m} > {d}")
+            if not (m == want or (near and abs(m - want) <= 1)):
+                return (f"{label}/step-count", f"branch {B}: length {L}, spacing {d}: {m} steps, expected {want}")
+            if not (L / m <= d * (1 + 1e-6) or L == 0):
+                return (f"{label}/steps-no-longer-than-spacing", f"{L / m} > {d}")
             rr = r32[list(B)].astype(np.float64)
             tol = 1e-4 * (1 + L) + 1e-5
             for j, node in enumerate(Y):
-                s = L * j / m
-                want_p = _point_at(Pb, cum, s)
-                ctx.check(float(np.linalg.norm(yx[node] - want_p)) <= tol, f"{label}/nodes-on-the-polyline-at-equal-arc-steps",
-                          lambda: f"branch {B} (L={L}, d={d}) node {j}/{m}: {yx[node].tolist()} vs {want_p.tolist()}")
-                ok, rng = _radius_ok(float(yr[node]), rr, cum, s, 1e-6 * (1 + L))
-                ctx.check(ok, f"{label}/radius-linear-in-arc-length",
-                          lambda: f"branch {B} node {j}/{m}: r={float(yr[node])}, expected within {rng}")
+                sarc = L * j / m
+                want_p = _point_at(Pb, cum, sarc)
+                if float(np.linalg.norm(yx[node] - want_p)) > tol:
+                    return (f"{label}/nodes-on-the-polyline-at-equal-arc-steps",
+                            f"branch {B} (L={L}, d={d}) node {j}/{m}: {yx[node].tolist()} vs {want_p.tolist()}")
+                ok, rng = _radius_ok(float(yr[node]), rr, cum, sarc, 1e-6 * (1 + L))
+                if not ok:
+                    return (f"{label}/radius-linear-in-arc-length", f"branch {B} node {j}/{m}: r={float(yr[node])}, expected within {rng}")
+            return None
+
+        verdicts = [[judge(B, Y) for Y in yb] for B in ob]
+        order_b = sorted(range(len(ob)), key=lambda i: sum(v is None for v in verdicts[i]))
+        assign = {}
+
+        def match(pos, taken):
+            if pos == len(order_b):
+                return True
+            i = order_b[pos]
+            for k in range(len(yb)):
+                if k not in taken and verdicts[i][k] is None:
+                    assign[i] = k
+                    if match(pos + 1, taken | {k}):
+                        return True
+            return False
+
+        if not match(0, frozenset()):
+            # report the clause of the most plausible pairing of the first branch that cannot be placed
+            i = order_b[0]
+            ends = [k for k in range(len(yb)) if same_node(yb[k][-1], ob[i][-1])] or list(range(len(yb)))
+            clause, msg = verdicts[i][ends[0]]
+            ctx.fail(clause.split("/", 1)[1] if clause.startswith(ctx.sub + "/") else clause, msg)
+        for i, B in enumerate(ob):
+            Y = yb[assign[i]]
+            Pb = P[list(B)]
+            L = float(_polyline(Pb)[1][-1])
+            near = L > 0 and abs(L / d - round(L / d)) < 1e-6 * max(1.0, L / d)
+            if near:
+                ctx.ambiguous("L/d-within-1e-6-of-an-integer")
             if L > 2 * d and len(B) >= 3:
                 n_long_bent += 1
-            stack.append((e, Y[-1]))
+            stack.append((B[-1], Y[-1]))
     ylen = float(np.sum(np.linalg.norm(yx[1:] - yx[[p for p in yp[1:]]], axis=1))) if len(yp) > 1 else 0.0
     olen = float(models.seg_lengths(t).sum())
     ctx.check(ylen <= olen * (1 + 1e-5) + 1e-5, f"{label}/total-length-never-grows", lambda: f"{ylen} > {olen}")
@@ -190,7 +235,19 @@ def run_resample(case, ctx):
             "zero-length-segment" if zero_seg else "no-zero-length-segment",
             "zero-length-branch" if "zero_branch" in t else "no-zero-length-branch",
             "d<meanL" if case["f"] < 1 else "d>=meanL")
-    y = ctx.lib("IsometricResampler", lambda: IsometricResampler(d)(tree))
+    if "twin_tips" in t:
+        ctx.cls("twin-tips")
+    if any(p > i for i, p in enumerate(parents)):
+        ctx.cls("numbering-not-parent-before-child")
+    rs = IsometricResampler(d)
+    how = case.get("reuse", "no")
+    if how == "another-tree-first":
+        ctx.lib("IsometricResampler", rs, gen_tree.build_tree(dict(t, x=[v + 1.0 for v in t["y"]], y=list(t["x"]))))
+        ctx.cls("resampler-object-reused")
+    elif how == "same-tree-again":
+        ctx.lib("IsometricResampler", rs, tree)  # the second result must again be made from the input, not from the first
+        ctx.cls("resampler-object-reused")
+    y = ctx.lib("IsometricResampler", rs, tree)
     for k, v in before.items():
         ctx.check(np.array_equal(tree.ndata[k], v), "tree/input-unchanged", f"column {k}")
     nlb = _check_resampled(ctx, t, y, d, "tree")
@@ -332,7 +389,8 @@ def run_smooth(case, ctx):
 SUBCHECKS = [
     Sub("tree", resample_strategy, run_resample, quick=2400, thorough=24000, shards_quick=4,
         required={"non-soma-root": 100, "soma-root": 100, "rootdeg:1": 50, "rootdeg:3": 30, "zero-length-segment": 100,
-                  "zero-length-branch": 30, "d<meanL": 300, "d>=meanL": 300}),
+                  "zero-length-branch": 30, "d<meanL": 300, "d>=meanL": 300, "twin-tips": 40,
+                  "numbering-not-parent-before-child": 200, "resampler-object-reused": 300}),
     Sub("branch", branch_strategy, run_branch, quick=2400, thorough=24000, shards_quick=2,
         required={"via:tree": 200, "via:from_xyzr": 200, "L=0": 10, "has-zero-length-segment": 100}),
     Sub("smooth", smooth_strategy, run_smooth, quick=1500, thorough=12000, shards_quick=2,
